@@ -167,6 +167,7 @@ def module_bodies(text):
   for m in re.finditer(r"^module\s+(\S+)(.*?)^endmodule", text, re.M | re.S):
     # comments and block labels (a lambda connection's label carries the instance path) are not hardware
     body = "\n".join(re.sub(r"begin\s*:\s*\w+", "begin", l) for l in m.group(2).splitlines() if not l.strip().startswith("//") and l.strip())
+    body = re.sub(r"(__const__\w+?_at)__lambda__\w+", r"\1__lambda", body)
     out.setdefault(m.group(1), []).append(body)
   return out
 
@@ -238,7 +239,9 @@ def run_shard(sh):
   for c in range(sh.params["designs"]):
     r = sh.rng("sg", c)
     kn = dict(trcommon.TR_KNOBS); kn.update(knobs(r))
-    kn["p_lambda"] = 0      # identifiers generated for lambda connections carry the instance path (cosmetic); bodies are compared textually
+    # lambda connections on whole signals and on fields / bits / slices: the labels (and the names of their closure constants)
+    # carry the instance path - module_bodies() takes that path out before bodies are compared, the identifier check sees it
+    kn["p_lambda"] = 0.25; kn["p_lambda_part"] = 0.5
     d = G.generate(r, kn)
     items.append({"type": "specgen", "design": d, "backends": ["sv", "ys"]})
     # stand-alone translation of every class of the hierarchy
